@@ -7,33 +7,27 @@
 From Coq Require Import List ZArith NArith Bool Floats.
 From WTF Require Import Model.Validate Model.Text Model.Platform Model.Engine Model.Index Model.Retry
                         Proofs.EngineProofs Proofs.CandidateProofs Proofs.IndexProofs.
+From WTF Require Proofs.Corollaries.
 Import ListNotations.
 
 (* every document the engine returns, on every path, exists in the database it searched (no index out of range) *)
 Theorem engine_indexes_in_range : forall E cmds q o nl i s,
   In (i, s) (search_universal E cmds q o nl) -> (i < length cmds)%nat.
-Proof.
-  intros E cmds q o nl i s I. destruct (search_universal_spec E cmds q o nl) as [_ [_ H]].
-  destruct (H i s I) as [c [D _]]. apply nth_error_Some. congruence.
-Qed.
+Proof. exact Corollaries.engine_indexes_in_range. Qed.
 
 (* the answer never exceeds the limit in force, whatever the limit value (negative, zero, 2^62) *)
 Theorem engine_bounded_for_any_limit : forall E cmds q o nl,
   (length (search_universal E cmds q o nl) <= Z.to_nat (limit_in_force o))%nat.
-Proof. intros. destruct (search_universal_spec E cmds q o nl) as [_ [H _]]. exact H. Qed.
+Proof. exact Corollaries.engine_bounded_for_any_limit. Qed.
 
 (* the index never refers to a document that is not there: postings only name existing documents *)
 Theorem postings_in_range : forall E cmds t p, In p (lookup_post t (build_postings E cmds)) -> (p_doc p < length cmds)%nat.
-Proof.
-  intros E cmds t p I. rewrite lookup_build in I. unfold doc_postings in I. apply in_flat_map in I.
-  destruct I as [[i c] [I1 I2]]. simpl in I2. destruct (tf_any (doc_tf E c t)); [|destruct I2].
-  destruct I2 as [I2|[]]. subst p. simpl. apply enumerate_fst_lt in I1. exact I1.
-Qed.
+Proof. exact Corollaries.postings_in_range. Qed.
 
 (* loader classification: a missing file is not-found, undecodable content is a parse error, a decoded list loads *)
 Theorem load_classifies : forall (A : Type) (l : list A),
   classify A (AOk l) = None /\ classify A ANotExist = Some ENotFound /\ classify A AParse = Some EParse.
-Proof. intros. repeat split. Qed.
+Proof. exact Corollaries.load_classifies. Qed.
 
 Print Assumptions engine_indexes_in_range.
 Print Assumptions engine_bounded_for_any_limit.
